@@ -277,6 +277,17 @@ def run_template(t):
             res['witness_native'] = n
             res['witness_node'] = w
             sub = tv._subst(args, vals)
+            # the two REAL runs on the witness input disagree although the symbolic comparison held: the difference
+            # lies in a part that is under contract here (runtime.js / the C runtime), observed on a concrete input
+            if n.get('kind') in ('ret', 'panic', 'crash') and w.get('kind') in ('ret', 'panic', 'trap') and native_vs_node(n, w):
+                n2 = tv.replay_native(t, vals)
+                w2 = replay_wasm(t, vals)
+                if native_vs_node(n2, w2):
+                    res['problems'].append({'kind': 'witness-disagreement', 'inputs': vals, 'regions': [], 'confirmed': 'native',
+                                            'detail': 'native executable and node run (shipped runtime.js) differ on the witness input although the emitted code agrees symbolically: the runtimes differ',
+                                            'qbe_predict': None, 'wasm_predict': None, 'native': n, 'node': w})
+                    res['replays'] += 2
+                    res['replays_ok'] += 2
             # encoder validation: each engine's prediction on the witness must agree with the real run of its target
             for outs, nat, which in ((outq, n, 'qbe'), (outw, w, 'wasm')):
                 for o in outs:
